@@ -666,5 +666,17 @@ theorem automatonAccepted_words_end (ρ : Rep n R) (a : Aut V) (hwf : a.WF) (L :
     automatonAccepted_sound ρ a L maxlen true none (some e) memo memo' edgeWords res hm h
   exact accepted_words_end ρ a hwf ⟨maxlen, true, false, edgeWords⟩ rfl L e pairs hsp
 
+/-- the public wrapper agrees with `automaton.enumerate_words(length, start_vertex)` as a
+multiset of words (`maxlen=True`, `with_words=True`) -/
+theorem automatonAccepted_eq_enumerate (ρ : Rep n R) (a : Aut V) (L : Nat)
+    (startState : Option V) (memo memo' : Memo V n R) (edgeWords : Bool) (res : AccRes n R)
+    (s : V) (hs : (startState <|> a.starts.head?) = some s) (ws : List (String × V))
+    (hm : MemoOK ρ a (topOpts true true (none : Option V) edgeWords) memo)
+    (h : ρ.automatonAccepted a L true true startState none memo edgeWords = .ok (res, memo'))
+    (he : a.enumWords s L = .ok ws) : res.words.Perm (ws.map Prod.fst) := by
+  have := automatonAccepted_words_start ρ a L true startState memo memo' edgeWords res s hs hm h
+  rw [Aut.enumWords_eq a s L ws he, List.map_flatMap]
+  exact this
+
 end Rep
 end GT
